@@ -14,7 +14,7 @@ from concurrent.futures import ThreadPoolExecutor
 import vlib
 from vlib import cbool, clist
 
-IMPORTS = "From DtlsV Require Import Lib.Bytes Rec.Recv Rec.C08Robust Rec.C08Run."
+IMPORTS = "From DtlsV Require Import Lib.Bytes Rec.WindowRun Rec.Recv Rec.C08Robust Rec.C08Run."
 PKG_CS = "./pkg/crypto/ciphersuite"
 
 # ---- explicit list of inputs that may legitimately stop an endpoint (kept minimal) ----------------------
@@ -34,6 +34,16 @@ EXCEPTIONS = [
 SHARDS = 6
 
 
+def func_name(line):
+    """'github.com/pion/dtls/v3/pkg/x.(*T).M(0x1, {...})' -> 'x.(*T).M'"""
+    f = line.strip()
+    for i, ch in enumerate(f):
+        if ch == "(" and i > 0 and f[i - 1] != ".":
+            f = f[:i]
+            break
+    return f.split("/")[-1]
+
+
 def top_repo_frame(out):
     """first /repo frame of the panicking goroutine: 'file.go:line function'"""
     m = re.search(r"panic: (.*)", out)
@@ -45,8 +55,7 @@ def top_repo_frame(out):
         mm = re.match(r"\s+/repo/([^\s:]+):(\d+)", l)
         if mm and i > 0 and "zz_verif" not in mm.group(1):
             site = "%s:%s" % (mm.group(1), mm.group(2))
-            f = lines[i - 1].strip()
-            func = re.sub(r"\(.*", "", f).split("/")[-1]
+            func = func_name(lines[i - 1])
             break
     return msg, site, func
 
@@ -55,13 +64,41 @@ def is_crash(out):
     return ("panic:" in out) or ("deadlock:" in out) or ("fatal error:" in out)
 
 
+def norm_panic(msg):
+    return re.sub(r"-?\d+", "N", msg)
+
+
+def livelock_site(out):
+    """for a watchdog crash: the innermost protocol frame (not conn.go's write path) of a running goroutine"""
+    best = None
+    for blk in re.split(r"\n\n(?=goroutine )", out):
+        head = blk.split("\n", 1)[0]
+        if "synctest bubble" not in head or "(durable)" in head:
+            continue
+        lines = blk.splitlines()
+        frames = []
+        for i, l in enumerate(lines):
+            mm = re.match(r"\s+/repo/([^\s:]+):(\d+)", l)
+            if mm and "zz_verif" not in mm.group(1) and i > 0:
+                frames.append((mm.group(1), func_name(lines[i - 1])))
+        if any("processPostHandshakeMessages" in f[1] for f in frames):
+            return "internal/handshake/post_handshake.go", "dtlshandshake.(*postHandshake).processPostHandshakeMessages"
+        for f in frames:
+            if f[0] != "conn.go":
+                best = best or f
+    return best or ("?", "?")
+
+
+AVOID = set()   # generator names of inputs that crashed: skipped afterwards so that the rest of a case is reached
+
+
 def run_shard(chk, shard, legs_rows, crashes, problems):
     frm = 0
-    for attempt in range(10):
+    for attempt in range(60):
         out = vlib.out_path("c08.%d.%d" % (shard, attempt))
         env = {"VERIF_SEED": chk.seed, "VERIF_TIER": chk.tier, "VERIF_OUT": out, "VERIF_C08_FROM": frm,
-               "VERIF_C08_SHARD": shard, "VERIF_C08_SHARDS": SHARDS}
-        rc, o = vlib.go_test(".", "^TestVerifC08$", env, tags=["c08"], timeout=3000,
+               "VERIF_C08_SHARD": shard, "VERIF_C08_SHARDS": SHARDS, "VERIF_C08_AVOID": ",".join(sorted(AVOID))}
+        rc, o = vlib.go_test(".", "^TestVerifC08$", env, tags=["c08"], timeout=(3000 if chk.tier == "thorough" else 600),
                              race=(chk.tier == "thorough" and shard == 0))
         rows = vlib.read_jsonl(out)
         vlib.cleanup(out)
@@ -78,16 +115,22 @@ def run_shard(chk, shard, legs_rows, crashes, problems):
             problems.append(("fail", o))
             return
         j = pending[-1]
-        crashes.append(replay_crash(chk, j, o))
-        frm = j["id"] + 1
-    problems.append(("fail", "more than 10 crashing cases in shard %d" % shard))
+        c = replay_crash(chk, j, o)
+        crashes.append(c)
+        g = (c.get("datagram") or {}).get("gen", "")
+        if g.startswith("prot:") or g.startswith("corpus:") or g == "mut:cbc-splice":
+            AVOID.add(g)
+            frm = j["id"]      # same case again, without that input
+        else:
+            frm = j["id"] + 1
+    problems.append(("fail", "more than 60 crashing cases in shard %d" % shard))
 
 
 def replay_crash(chk, j, first_out):
     """re-run the single case with a per-datagram trace: the last traced datagram is the culprit"""
     out = vlib.out_path("c08.replay.%d" % j["id"])
     env = {"VERIF_SEED": chk.seed, "VERIF_TIER": chk.tier, "VERIF_OUT": out, "VERIF_C08_ONLY": j["id"],
-           "VERIF_C08_TRACE": 1}
+           "VERIF_C08_TRACE": 1, "VERIF_C08_AVOID": ",".join(sorted(AVOID))}
     rc, o = vlib.go_test(".", "^TestVerifC08$", env, tags=["c08"], timeout=600)
     rows = vlib.read_jsonl(out)
     vlib.cleanup(out)
@@ -95,12 +138,24 @@ def replay_crash(chk, j, first_out):
     reproduced = rc != 0 and is_crash(o)
     src = o if reproduced else first_out
     msg, site, func = top_repo_frame(src)
+    kind = "panic"
+    if "c08 watchdog: livelock" in src:
+        kind = "livelock"
+        site, func = livelock_site(src)
+        msg = "endpoint goroutine spins: more than 40000 datagrams written, never blocks again"
+    elif "c08 watchdog: memory" in src:
+        kind = "memory"
+        site, func = livelock_site(src)
+        msg = "heap above 3 GB"
+    elif "deadlock:" in src and "panic: runtime error" not in src:
+        kind = "deadlock"
     last = traces[-1] if (traces and reproduced) else None
-    crash = {"case": j, "reproduced": reproduced, "panic": msg, "site": site, "func": func,
-             "deadlock": "deadlock:" in src and "panic: runtime error" not in src,
+    crash = {"case": j, "reproduced": reproduced, "panic": msg, "site": site, "func": func, "kind": kind,
+             "deadlock": kind == "deadlock",
              "datagram": last, "n_before": len(traces), "output": src[-2500:]}
     # minimise: the culprit alone, at the same point of the same session (context-free for cleartext input)
-    if last is not None and last.get("note") not in ("auth",) and not last["gen"].startswith("mut:cbc-splice"):
+    if kind == "panic" and last is not None and last.get("note") not in ("auth",) and \
+            not last["gen"].startswith("mut:cbc-splice"):
         out2 = vlib.out_path("c08.min.%d" % j["id"])
         spec = "%s:%d:%s:%s" % (j["variant"], j["stage"], last["target"], last["hex"])
         rc2, o2 = vlib.go_test(".", "^TestVerifC08Replay$", {"VERIF_C08_REPLAY": spec, "VERIF_OUT": out2},
@@ -164,16 +219,23 @@ def model_term(o):
         k = "KUnsplitLen" if cls == "unsplit:len" else "KUnsplitOther"
     elif cls == "undec:epoch13":
         k = "KForged"
+    elif cls == "undec:ccs-epoch":
+        return None  # outcome depends on the claimed epoch (Recv.recv models it; not a one-kind prediction)
     elif cls.startswith("undec:"):
         k = "KUndecHs" if cls == "undec:hs" else ("KUndecContent" if o.get("fresh") else "KUndecStale")
     e = o["eff"]
     alert = e.get("alert", "")
-    return "(%s, %s, (%s, %s, %s, %s))" % (
-        cbool(o["est"]), k, cbool(bool(e.get("hs_err")) or bool(e.get("read_err"))),
+    return "(%s, %s, %s, (%s, %s, %s, %s))" % (
+        cbool(o.get("neg", False)), cbool(o["est"]), k, cbool(bool(e.get("hs_err")) or bool(e.get("read_err"))),
         cbool(alert != ""), cbool(bool(e.get("closed"))), cbool(bool(e.get("deliv"))))
 
 
 def run(chk):
+    if chk.tier != "thorough":
+        # belt and braces next to the harness watchdog: no runaway test binary may eat the machine
+        # (not with -race: the race detector needs a huge address space)
+        import resource
+        resource.setrlimit(resource.RLIMIT_AS, (24 << 30, 24 << 30))
     proved = chk.prove()
     rows, crashes, problems = [], [], []
     with ThreadPoolExecutor(max_workers=SHARDS) as ex:
@@ -193,41 +255,45 @@ def run(chk):
     if rcu != 0:
         chk.broken("unit harness TestVerifC08Decrypt no longer runs (%s)" % vlib.classify_go_failure(ou), ou)
 
-    # ---- M1 panic / deadlock
-    seen_sites = set()
+    # ---- M1 panic / deadlock / livelock: one finding per (function, message); all cases that hit it listed
+    by_site = {}
     for c in crashes:
-        key = (c["func"], c["panic"])
-        if key in seen_sites:
-            continue
-        seen_sites.add(key)
-        found = True
-        d = c["datagram"] or {}
-        sig = {"monitor": "deadlock" if c["deadlock"] else "panic", "function": c["func"], "panic": c["panic"]}
-        chk.finding(c["site"].split(":")[0] + " " + c["func"], sig,
-                    "%s in an endpoint goroutine: %s at %s [variant %s, %s, generator %s, sender %s]" % (
-                        "deadlock" if c["deadlock"] else "panic", c["panic"], c["site"], c["case"]["variant"],
-                        "established" if c["case"]["stage"] < 0 else "before handshake datagram #%d" % c["case"]["stage"],
-                        d.get("gen", c["case"]["gen"]),
-                        "authenticated peer" if d.get("note") == "auth" else "unauthenticated"),
-                    {"how": "VERIF_SEED=%s VERIF_TIER=%s VERIF_C08_ONLY=%d go test -run TestVerifC08 (bin/check C08); "
-                            "`datagram.hex` is the last datagram delivered to `datagram.target` before the crash"
-                            % (chk.seed, chk.tier, c["case"]["id"]),
-                     "case": c["case"], "datagram": d, "class": d.get("note"),
-                     "single_datagram_replay": c.get("single_datagram_replay"),
-                     "reproduced": c["reproduced"], "stack": c["output"]})
+        by_site.setdefault((c["kind"], c["func"], norm_panic(c["panic"])), []).append(c)
+    upanics = {}
     for u in urows:
         if u.get("panic"):
-            key = ("unit", u["suite"], u["panic"])
-            if key in seen_sites:
-                continue
-            seen_sites.add(key)
-            # reported once per panic message through the e2e finding when it exists; otherwise here
-            if not any(c["panic"] == u["panic"] for c in crashes):
-                found = True
-                chk.finding("pkg/crypto/ciphersuite %s.Decrypt" % u["suite"],
-                            {"monitor": "panic", "function": "%s.Decrypt" % u["suite"], "panic": u["panic"]},
-                            "panic in %s.Decrypt on %s input: %s" % (u["suite"], u["kind"], u["panic"]),
-                            {"suite": u["suite"], "record_hex": u["hex"], "keys": u.get("keys"), "kind": u["kind"]})
+            upanics.setdefault(norm_panic(u["panic"]), []).append(u)
+    for (kind, func, pmsg), cs in sorted(by_site.items()):
+        found = True
+        unauth = [c for c in cs if (c.get("datagram") or {}).get("note") not in ("auth", None)]
+        c = (unauth or cs)[0]
+        d = c["datagram"] or {}
+        who = "unauthenticated sender" if unauth else "authenticated peer (record sealed with the session keys)"
+        sig = {"monitor": kind, "function": func, "panic": pmsg}
+        chk.finding(c["site"].split(":")[0] + " " + func, sig,
+                    "%s in an endpoint goroutine: %s at %s; reachable by an %s [e.g. variant %s, %s, input %s; %d "
+                    "crashing cases, variants %s]" % (
+                        kind, c["panic"], c["site"], who, c["case"]["variant"],
+                        "established" if c["case"]["stage"] < 0 else "before handshake datagram #%d" % c["case"]["stage"],
+                        d.get("gen", c["case"]["gen"]), len(cs), sorted({x["case"]["variant"] for x in cs})),
+                    {"how": "VERIF_SEED=%s VERIF_TIER=%s VERIF_C08_ONLY=%d VERIF_C08_TRACE=1 go test -run TestVerifC08 "
+                            "(through bin/check C08); `datagram.hex` is the last datagram delivered to "
+                            "`datagram.target` before the crash" % (chk.seed, chk.tier, c["case"]["id"]),
+                     "case": c["case"], "datagram": d, "class": d.get("note"),
+                     "single_datagram_replay": c.get("single_datagram_replay"),
+                     "all_inputs": sorted({(x.get("datagram") or {}).get("gen", "?") for x in cs}),
+                     "unit_level": [{"suite": u["suite"], "kind": u["kind"], "record_hex": u["hex"], "keys": u.get("keys")}
+                                    for u in upanics.get(pmsg, [])[:3]],
+                     "reproduced": c["reproduced"], "stack": c["output"]})
+    for pmsg, us in sorted(upanics.items()):
+        if any(norm_panic(c["panic"]) == pmsg for c in crashes):
+            continue
+        u = us[0]
+        found = True
+        chk.finding("pkg/crypto/ciphersuite %s.Decrypt" % u["suite"],
+                    {"monitor": "panic", "function": "%s.Decrypt" % u["suite"].split("+")[0], "panic": pmsg},
+                    "panic in %s.Decrypt on %s input: %s" % (u["suite"], u["kind"], u["panic"]),
+                    {"suite": u["suite"], "record_hex": u["hex"], "keys": u.get("keys"), "kind": u["kind"]})
 
     # ---- M4 drop classes are inert (per datagram), grouped by (what it is, what it causes)
     groups = {}
@@ -236,33 +302,33 @@ def run(chk):
             v = obs_violation(o)
             if v is None:
                 continue
-            eff = o["eff"]
-            g = (drop_kind(o["class"]), "before establishment" if not o["est"] else "after establishment",
-                 "hs-abort" if eff.get("hs_err") else ("read-error" if eff.get("read_err") else "other"),
-                 "alert" if eff.get("alert") else "no-alert")
-            cur = groups.get(g)
-            if cur is None or len(o.get("hex", "")) < len(cur[1].get("hex", "") or "x" * 9999):
-                if o.get("hex"):
-                    groups[g] = (c, o, v)
-            if cur is None and g not in groups:
-                groups[g] = (c, o, v)
-    for g, (c, o, v) in sorted(groups.items()):
+            g = (drop_kind(o["class"]), "before establishment" if not o["est"] else "after establishment")
+            cur = groups.setdefault(g, {"ex": None, "effects": set(), "n": 0, "classes": set()})
+            cur["n"] += o["n"]
+            cur["effects"].add(v)
+            cur["classes"].add(o["class"])
+            if o.get("hex") and (cur["ex"] is None or len(o["hex"]) < len(cur["ex"][1]["hex"])):
+                cur["ex"] = (c, o, v)
+    for g, info in sorted(groups.items()):
+        if info["ex"] is None:
+            continue
+        c, o, v = info["ex"]
         found = True
         chk.finding(site_of(o["class"]),
-                    {"monitor": "drop-class datagram has an effect", "what": g[0], "when": g[1], "effect": g[2],
-                     "alert": g[3]},
-                    "%s %s: it %s [e.g. variant %s, %s, target %s, class %s]" % (
-                        g[0], g[1], v, c["variant"],
+                    {"monitor": "drop-class datagram has an effect", "what": g[0], "when": g[1]},
+                    "%s, %s: it %s [%d such datagrams; shortest: variant %s, %s, target %s, class %s, hex %s]" % (
+                        g[0], g[1], v, info["n"], c["variant"],
                         "established" if c["stage"] < 0 else "before handshake datagram #%d" % c["stage"],
-                        c["target"], o["class"]),
-                    {"how": "establish/start `variant`, deliver `hex` to `target` at `stage` (datagram index before "
-                            "whose delivery it is injected; -1 = after the handshake): VERIF_C08_REPLAY="
-                            "%s:%d:%s:%s go test -run TestVerifC08Replay" % (c["variant"], c["stage"], c["target"],
-                                                                            o.get("hex", "")),
+                        c["target"], o["class"], o.get("hex", "")[:80]),
+                    {"how": "start `variant`, deliver `hex` to `target` at `stage` (index of the handshake datagram before "
+                            "whose delivery it is injected; -1 = after the handshake): VERIF_C08_REPLAY=%s:%d:%s:%s "
+                            "go test -run TestVerifC08Replay" % (c["variant"], c["stage"], c["target"], o.get("hex", "")),
                      "variant": c["variant"], "stage": c["stage"], "target": c["target"], "class": o["class"],
                      "hex": o.get("hex"), "effect": o["eff"], "case_id": c["id"],
+                     "all_effects_seen": sorted(info["effects"]), "classes": sorted(info["classes"]),
                      "reading": "the datagram cannot be parsed as DTLS record(s) by an independent reading of RFC 6347 4.1 / "
-                                "RFC 9147 4 (classifier c08Classify), so the property requires it to be dropped"})
+                                "RFC 9147 4 (classifier c08Classify), so the property requires it to be dropped and the "
+                                "endpoint to keep serving"})
 
     # ---- M4b keeps serving after drop-only batches
     for c in cases:
